@@ -664,7 +664,7 @@ def _pipeline(cases, hists, envs, out, wd):
     hsh = kit.write_shards(hrecs + ctrl, wd / "trace", "c14h", 2500) if hrecs else []
     with cf.ThreadPoolExecutor(max_workers=2) as ex:
         fv = ex.submit(kit.judge_shards, "C14_Judge", "C14_Judge", vsh, jvms=3, workers=4, heap="2g")
-        fh = ex.submit(kit.judge_shards, "C14_NamesTrace", "C14_NamesTrace", hsh, jvms=2, workers=4, heap="2g")
+        fh = ex.submit(kit.judge_shards, "C14_NamesTrace", "C14_NamesTrace", hsh, jvms=4, workers=3, heap="2g")
         vver, st1, tr1 = fv.result()
         hver, st2, tr2 = fh.result()
     kit.log(f"C14: TLC judged {len(vrecs)} value records and validated {len(hrecs)} traces "
